@@ -159,6 +159,10 @@ func (s *Server) setSettings(settings serverSettings) {
 			// meanwhile keep the tree they started with (open documents are
 			// read from their buffers by the loader)
 			_ = s.workspace.Initialize()
+			// what a request collected between the two steps (from the old
+			// workspace, under the new count) is outdated as well
+			s.docGen.Add(1)
+			s.dropPayeeTemplates()
 		}
 	}
 	if oldSettings.CLI.Path != settings.CLI.Path || oldSettings.CLI.Timeout != settings.CLI.Timeout {
